@@ -158,6 +158,26 @@ def template(tid):
         v = f.createVariable('z', 'f', ('z',))
         v[...] = [1, 2, 4]
         f.setCoords(['z'])
+    elif tid == 'T9':
+        # numbered dimension names (the string forms of the command line
+        # address 'lev' AND 'lev1', 'lev2' - not 'lev2m')
+        f.createDimension('t', 2).setunlimited(True)
+        f.createDimension('lev', 3)
+        f.createDimension('lev2', 2)
+        f.createDimension('lev2m', 2)
+        f.createDimension('lev10', 2)
+        v = f.createVariable('A', 'f', ('t', 'lev'))
+        v[...] = _tok((2, 3), 900, 'f')
+        v = f.createVariable('B', 'f', ('t', 'lev2'), fill_value=-9.)
+        v[...] = np.ma.masked_array(_tok((2, 2), 920, 'f'),
+                                    mask=[[0, 1], [0, 0]])
+        v = f.createVariable('C', 'd', ('t', 'lev2m'))
+        v[...] = _tok((2, 2), 940, 'd')
+        v = f.createVariable('D', 'i', ('lev2m', 'lev'))
+        v[...] = _tok((2, 3), 960, 'i')
+        v = f.createVariable('E', 'f', ('lev10', 'lev2'))
+        v[...] = _tok((2, 2), 980, 'f')
+        f.title = 'numbered dimensions'
     elif tid == 'M1':
         # the template of the bounded model spec/PncCore_MC.tla (M1)
         f.createDimension('t', 2).setunlimited(True)
@@ -187,12 +207,19 @@ def template(tid):
     return f
 
 
-TEMPLATES = ['T1', 'T2', 'T3', 'T4', 'T5', 'T7']
+TEMPLATES = ['T1', 'T2', 'T3', 'T4', 'T5', 'T7', 'T9']
 
 
 # ---------------------------------------------------------------------------
 # argument conversion
 # ---------------------------------------------------------------------------
+def fz_of(dimnames):
+    """The 'fz' argument of a string-form step: the dimension names of the
+    source file and their characters (spec/PncCore.tla FuzzyTargets)."""
+    names = [str(d) for d in dimnames]
+    return {'names': names, 'chars': [list(n) for n in names]}
+
+
 def py_sel(s):
     if s['k'] == 'int':
         return int(s['v'])
@@ -276,6 +303,8 @@ def call(objs, st, tmp):
             parts = [str(v) if h else 'None'
                      for h, v in zip(s_['h'], s_['v'])]
             sdef = '%s,%s' % (sl['d'], ','.join(parts))
+        if 'fz' in a:       # the default of the command line: fuzzydim=True
+            return _drop_history(f, slice_dim(f, sdef))
         return _drop_history(f, slice_dim(f, sdef, fuzzydim=False))
     if act == 'slice':
         kw = {}
@@ -286,6 +315,9 @@ def call(objs, st, tmp):
         # string form 'dim,function' of the command line tools
         from PseudoNetCDF.core._functions import reduce_dim
         fn = a['funcs'][0]
+        if 'fz' in a:
+            return _drop_history(f, reduce_dim(
+                f, '%s,%s' % (fn['d'], fn['f']), metakeys=[]))
         return _drop_history(f, reduce_dim(f, '%s,%s' % (fn['d'], fn['f']),
                                            fuzzydim=False, metakeys=[]))
     if act == 'apply' and a.get('via') == 'convolve_dim':
@@ -538,6 +570,8 @@ def _gen_step(rnd, sh, src, shadows, focus=None, strict=False):
             # comparisons - to a netCDF integer type by design)
             if nonempty and '?' not in getattr(sh, 'dt', {}).values() and not getattr(sh, 'dupdims', False):
                 a['via'] = 'slice_dim'
+                if rnd.random() < 0.7:
+                    a['fz'] = fz_of(sh.dims)
     elif act == 'apply':
         nd = rnd.randint(1, min(3, len(dims)))
         ds = rnd.sample(dims, nd)
@@ -565,6 +599,8 @@ def _gen_step(rnd, sh, src, shadows, focus=None, strict=False):
                 '?' not in getattr(sh, 'dt', {}).values() and not getattr(sh, 'dupdims', False):
             if fs[0]['kind'] == 'reducer':
                 a['via'] = 'reduce_dim'
+                if rnd.random() < 0.7:
+                    a['fz'] = fz_of(sh.dims)
             elif fs[0]['f'] in CONVDEFS:
                 a['via'] = 'convolve_dim'
     elif act == 'stack':
